@@ -598,7 +598,7 @@ def sat_depth(pc, F):
     return d
 
 
-def classify_poly(pieces, F, thr=5e-7):
+def classify_poly(pieces, F, thr=5e-7, exact=False):
     """tile vs union of convex pieces: 'req' if it clearly overlaps one piece, 'forbid:disjoint' if it
     is clearly separated from every piece, else 'open' (contact: touching / within ~1e-9)."""
     ds = [sat_depth(p, F) for p in pieces]
@@ -606,6 +606,10 @@ def classify_poly(pieces, F, thr=5e-7):
         return "req"
     if max(ds) <= -thr:
         return "forbid:disjoint"
+    if exact and max(ds) == 0:
+        # dyadic grid and dyadic vertices: the tile exactly touches the polygon (shared edge or corner) and does
+        # not overlap it - "edge contacts excluded", as for bounding-box queries
+        return "forbid:touching"
     return "open"
 
 
@@ -645,7 +649,7 @@ def run_poly(case):
     def classify(F):
         c = cls.get(F)
         if c is None:
-            c = cls[F] = classify_poly(pieces, F)
+            c = cls[F] = classify_poly(pieces, F, exact=m.exact)
         return c
 
     shape_cls = name.rstrip("+-dt0") or name
